@@ -347,6 +347,7 @@ func (c *Cache) writeDump(w io.Writer) (int, error) {
 	gw.Name = dumpHeader
 
 	block := new(CacheDumpBlock)
+	blockBytes := 0 // approximate marshaled size of block
 	writeBlock := func() error {
 		b, err := proto.Marshal(block)
 		if err != nil {
@@ -366,6 +367,7 @@ func (c *Cache) writeDump(w io.Writer) (int, error) {
 
 		en += len(block.GetEntries())
 		block.Reset()
+		blockBytes = 0
 		return nil
 	}
 
@@ -386,9 +388,11 @@ func (c *Cache) writeDump(w io.Writer) (int, error) {
 			Msg:                 msg,
 		}
 		block.Entries = append(block.Entries, e)
+		blockBytes += len(k) + len(msg) + 64
 
-		// Block is big enough for a write operation.
-		if len(block.Entries) >= dumpBlockSize {
+		// Block is big enough for a write operation. Also keep the block well
+		// below dumpMaximumBlockLength, otherwise readDump will refuse it.
+		if len(block.Entries) >= dumpBlockSize || blockBytes >= dumpMaximumBlockLength/2 {
 			return writeBlock()
 		}
 		return nil
